@@ -70,6 +70,16 @@ FAMILIES = {
                    invariants=["Emit", "DecTotal"],
                    tiers=dict(quick=dict(runs=[dict(constants={"MaxD": "= 1", "NFuzz": "= 300"})]),
                               thorough=dict(runs=[dict(constants={"MaxD": "= 1", "NFuzz": "= 20000"})]))),
+    "Stacks": dict(module="MC_Stacks", spec="SSpec", constants=dict(BASE, NSlots="= 1"),
+                   invariants=["Emit", "InvC16"],
+                   tiers=dict(quick=dict(runs=[dict(constants={"MaxD": "= 1"}), dict(constants={"MaxD": "= 2"})]),
+                              thorough=dict(runs=[dict(constants={"MaxD": "= 1"}), dict(constants={"MaxD": "= 2"})]))),
+    "Migrate": dict(module="MC_Migrate", spec="MSpec", constants=dict(BASE, NSlots="= 3"),
+                    invariants=["Emit", "InvC17"],
+                    tiers=dict(quick=dict(runs=[dict(constants={"MaxD": "= 20", "Dup": "= FALSE"}),
+                                                dict(constants={"MaxD": "= 20", "Dup": "= TRUE"})]),
+                               thorough=dict(runs=[dict(constants={"MaxD": "= 20", "Dup": "= FALSE"}),
+                                                   dict(constants={"MaxD": "= 20", "Dup": "= TRUE"})]))),
     "Unknown": fam("MC_Unknown",
                    quick=[chain(4, hops=2), sim(1000, 5, design=False, NSlots="= 2")],
                    thorough=[chain(4, hops=2), sim(20000, 7, NSlots="= 3")]),
@@ -85,6 +95,9 @@ ASSUME = ["strings are abstracted to token shapes (DESIGN 3.1)",
 def prop(families, rule, trigger_ops=None, level="model_checking"):
     return dict(families=families, level=level, trigger_ops=trigger_ops, rule=rule, assumptions=ASSUME,
                 exhaustive=dict(quick=False, thorough=False))
+
+
+EXHAUSTIVE = {"C05", "C16", "C17"}
 
 
 GEN = ("behaviours are generated by TLC from the family's bounded configuration (exhaustively to the stated depth, "
@@ -113,6 +126,15 @@ PROPS = {
     "C12": prop(["Taint"], GEN + "a string that entered through a safe channel (its own searchable word)", None),
     "C13": prop(["Multi"], GEN + "a multi-cause node", ["Join", "JoinPkg", "GoJoin", "GoWrap2"]),
     "C15": prop(["Format"], GEN + "a value for which a Sentry report is built (all do)", None),
+    "C16": prop(["Stacks"], "every exported stack-capturing or domain-computing function of the root package and of "
+                            "errutil / withstack / domains x depth 0..3, called through four non-inlinable helper functions "
+                            "in four packages (also in pairs, to check that one call does not disturb the next); distinct = "
+                            "distinct (function, depth) sequences; non-trivial = all", None),
+    "C17": prop(["Migrate"], "all assignments of {original, renamed, differently renamed, chain of two renames, never knew the "
+                             "type} to three processes x every registration order of each process's renames (x an attempt to "
+                             "register a target twice), each followed by the scenario script (build at 1, transfer 1->2->3, "
+                             "build an equal error at 3 or 2, compare at 3, third error 1->3); exhaustive; distinct = distinct "
+                             "step sequences; non-trivial = all", None),
     "C19": prop(["Annot"], GEN + "a hint, detail, link, key or tag annotation",
                 ["WithHint", "WithDetail", "WithTelemetry", "WithIssueLink", "WithContextTags",
                  "WithAssertionFailure", "Unimplemented", "AssertionFailedf", "HandleAsAssertionFailure"]),
@@ -171,6 +193,16 @@ CLAIMS = {
     "C15": claim("abstract model of BuildSentryReport in the specification (composition lines, exceptions per stack-carrying "
                  "layer outermost first with that layer's frames and the domain as module, error-types lines with type name "
                  "and mark, source prefix, nil -> nothing); recorded report observations must equal it", "DESIGN 8 C15"),
+    "C16": claim("the specification transcribes, per API function, the chain of forwarding functions and the increments they "
+                 "add to the depth as written; TLC checks on the table that every capture lands on the prescribed caller, "
+                 "enumerates function x depth, and validates the recorded innermost frame (function, line), one-line "
+                 "source and domain package of every real call against the prescribed user frame", "DESIGN 8 C16"),
+    "C17": claim("the specification models processes with their own rename registries (RegisterTypeMigration transcribed, "
+                 "incl. forwarding) and linked types; TLC checks on the model that every lineage type is encoded under the "
+                 "original name and that equal lineage errors are identified in every process, for every version assignment and "
+                 "registration order, exhaustively; each behaviour is replayed on the real registries (installed per process "
+                 "through the verif hook) and the recorded family, decoded type, Is results and duplicate rejection are "
+                 "validated", "DESIGN 8 C17"),
     "C19": claim("independent model of hint/detail/link/key/tag aggregation; recorded accessor outputs must equal it",
                  "DESIGN 8 C19"),
 }
